@@ -19,6 +19,11 @@ from common import natlist, boollist, coq_list
 def make(rng, eta, slow=False):
     import artlib
     ma = artlib.FuzzyART(rho=rng.choice([0.0, 0.3, 0.6]), alpha=1e-3, beta=1.0)
+    if rng.random() < 0.2:          # a row module that prunes and renumbers its categories during fit
+        import contextlib, io
+        with contextlib.redirect_stdout(io.StringIO()):
+            ma = artlib.TopoART(artlib.FuzzyART(rho=rng.choice([0.3, 0.6, 0.8]), alpha=1e-3, beta=1.0), beta_lower=0.5,
+                                tau=rng.choice([2, 3, 4, 6]), phi=rng.choice([1, 2]))
     kind = "art2a-slow" if slow else rng.choice(["fuzzy", "fuzzy", "fuzzy-slow", "art2a-slow"])
     if kind == "fuzzy":
         mb = artlib.FuzzyART(rho=rng.choice([0.0, 0.3, 0.6, 0.9]), alpha=1e-3, beta=1.0)
@@ -49,7 +54,8 @@ def run(rng):
     est = make(rng, eta, slow=proto)
     epochs = rng.choice([2, 3]) if proto else rng.choice([1, 1, 2, 3])
     rep = {"X": X.tolist(), "eta": eta, "shape": [n, m], "max_iter": epochs,
-           "module_b": type(est.module_b).__name__ + repr({k: v for k, v in est.module_b.params.items()})}
+           "module_b": type(est.module_b).__name__ + repr({k: v for k, v in est.module_b.params.items()}),
+           "module_a": type(est.module_a).__name__ + repr({k: (v if not hasattr(v, "get_params") else type(v).__name__) for k, v in est.module_a.params.items()})}
     fails = []
     # "after BARTMAP.fit" includes a fit of an instance that was fitted before: same-shape matrix first
     # (a column permutation of X or fresh values), then X; everything below is about the last fit
